@@ -132,6 +132,21 @@ def check(case):
     uses = uses_of(case)
     n = 0
     nontrivial = []
+    if TOOLS[case["tool"]].kind == "agg":
+        # a failure that needs no injection (an item that cannot be added / compared, raised by a C-level callable
+        # no double can instrument): the source must not be used after it either
+        bs = run_sync(case)
+        sv = consumer_view(bs.ctx.log)
+        if sv and sv[-1][0] == "raise" and sv[-1][3] is None:
+            ba, outcome = run_async(case)
+            expect_return(outcome, f"C06/{case['tool']}", case)
+            pulls = lambda log: [e for e in trace_view(log) if e[0] in ("pull", "item", "end")]  # noqa: E731
+            d = first_diff(pulls(ba.ctx.log), pulls(bs.ctx.log))
+            if d is not None and consumer_view(ba.ctx.log) == sv:
+                i, x, y = d
+                raise Violation(f"C06/{case['tool']}/source-used-differently-around-a-failure",
+                                f"event {i}: async={x} stdlib={y}")
+            n += 1
     for pos, (res, at) in enumerate(uses, start=1):
         if res.startswith("s") and res[1:].isdigit() and case["srcs"][int(res[1:])]["fl"] == "list":
             continue
